@@ -358,3 +358,19 @@ Proof. exact stmt_policy_keeps_decodable. Qed.
 Check policy_actions_keep_decodable :
   forall x raddr st default, policy_keeps_decodable (stmt_policy x raddr st default).
 Print Assumptions policy_actions_keep_decodable.
+
+(* process_nlri_change cannot panic (no slice index / unwrap of the AS_PATH edits is
+   reached) on attribute vectors the UPDATE decoder produces, for either version of
+   the code and every policy that keeps vectors decodable. *)
+Theorem no_panic_on_decodable :
+  forall fixed x pol emax raddr cid c e,
+    wf_ctx x -> policy_keeps_decodable pol ->
+    (forall p, In p (c_paths c) -> decodable (p_attrs p)) ->
+    exists r, process_change_v fixed x pol emax raddr cid c e = Ok r.
+Proof. exact C09_no_panic_on_decodable. Qed.
+Check no_panic_on_decodable :
+  forall fixed x pol emax raddr cid c e,
+    wf_ctx x -> policy_keeps_decodable pol ->
+    (forall p, In p (c_paths c) -> decodable (p_attrs p)) ->
+    exists r, process_change_v fixed x pol emax raddr cid c e = Ok r.
+Print Assumptions no_panic_on_decodable.
